@@ -2,7 +2,11 @@ CONSTANTS
   MaxTokens = 2
   NItems = 3
   WorldIds = {2}
+  TokenIds = {1,2,3,4,5,6,7,8,9,10,11,12,13,14,15,16,17,18,19,20,21,22,23,24,25,26,27,28,29,30,31}
+  QueryIds = {1,2,3}
+  DelimIds = {1}
+  SepSet = {"LF"}
 INIT Init
 NEXT Next
-INVARIANTS InvExpansionReadsBack InvEscapedStayLiteral InvPlusCoversSelection InvOrdinals InvNeverHazard Emit
+INVARIANTS InvExpansionReadsBack InvEscapedStayLiteral InvPlusCoversSelection InvOrdinals InvNeverHazard InvFilesReadBack InvPlusFileCoversSelection InvQueryWordsIgnoreDelimiter InvAwkFieldsAgree Emit
 CHECK_DEADLOCK FALSE
